@@ -38,7 +38,7 @@ m = {
     "setup_cmd": "./build.sh",
     "hooks": {
         "guard": "verif",
-        "enable": "go build tag: -tags verif (the verifier loads packages with -tags=verif; replay tests run go test -tags verif); hook files are /repo/<pkg>/verif_contracts.go, comment contracts plus spec/lemma functions, compiled only under the tag",
+        "enable": "go build tag: -tags verif (the verifier loads packages with -tags=verif; replay tests run go test -tags verif); hook files are /repo/<pkg>/verif_*.go (each starts with //go:build verif), comment contracts plus spec/lemma functions, compiled only under the tag",
         "baseline_off_cmd": "cd /repo && go test -mod=mod -json -vet=off -count=1 -timeout 25m ./...",
         "source_commits": hooks,
         "add_only": True,
